@@ -53,11 +53,16 @@ def preorder(t, parent=None):
         yield from preorder(k, t)
 
 
+def fresh(x):
+    """a NEW str object with the same characters (never a shared literal / interned constant)"""
+    return None if x is None else "".join(list(x)) if len(x) != 1 else (x + "#")[:1]
+
+
 def build_impl(snap, parent=None):
     from metapype.model.node import Node
-    n = Node(snap["name"], id=snap["id"], content=snap["content"])
+    n = Node(fresh(snap["name"]), id=fresh(snap["id"]), content=fresh(snap["content"]))
     for k, v in snap["attrs"]:
-        n.add_attribute(k, v)
+        n.add_attribute(fresh(k), fresh(v))
     n.parent = parent
     for k in snap["kids"]:
         n.children.append(build_impl(k, n))
@@ -338,6 +343,21 @@ def gen_cases(ctx):
     # --- keywords
     for counts in ((), (0,), (4,), (5,), (6,), (2, 2), (2, 3), (3, 3), (0, 5), (1, 1, 1, 1), (1, 1, 1, 1, 1)):
         yield f"keywords:{sum(counts)}:{len(counts)}", dataset(rng, title=sentence(rng, 5), keywords=counts), []
+    # --- sizes past the small-int cache: more than 256 keywords / keyword sets / parties / paras in one dataset
+    for counts in ((255,), (256,), (257,), (300,), tuple([0] * 260), tuple([0] * 256 + [4]), tuple([0] * 256 + [5]), tuple([1] * 257)):
+        yield f"keywords:big:{sum(counts)}:{len(counts)}", dataset(rng, title=sentence(rng, 5), keywords=counts), []
+    yield "dataset:big:creators", dataset(rng, title=sentence(rng, 5),
+                                          extra_parties=tuple(party("creator", rng, userid=rng.choice(USERIDS), email=rng.choice(EMAILS))
+                                                              for _ in range(260))), []
+    yield "abstract:big:paras", dataset(rng, title=sentence(rng, 5),
+                                        abstract=E("abstract", kids=[E("para", "w") for _ in range(19)] + [E("para", None) for _ in range(257)])), []
+    yield "abstract:big:paras20", dataset(rng, title=sentence(rng, 5),
+                                          abstract=E("abstract", kids=[E("para", None) for _ in range(257)] + [E("para", "w") for _ in range(20)])), []
+    yield "title:big", E("dataset", kids=[E("title", sentence(rng, 300, "multi"))]), []
+    yield "party:big:userIds", E("creator", kids=[E("userId", "u%d" % i, [("directory", "https://example.org")]) for i in range(257)] +
+                                 [E("userId", "0000-0003", [("directory", ORCID)])]), []
+    yield "table:big:physical", E("dataTable", kids=[E("entityName", "n")] + [E("alternateIdentifier", "a%d" % i) for i in range(260)] +
+                                  [physical(rng), E("numberOfRecords", "3")]), []
     # --- coverage / tables / methods / project present or absent
     for cov in (None, "empty", "temporal", "geographic"):
         yield f"coverage:{cov}", dataset(rng, title=sentence(rng, 5), cov=cov), []
